@@ -48,6 +48,9 @@ fn main() {
                 seed = seed.wrapping_mul(1_000_003);
             }
             alloc::configure(prop, &replays);
+            if prop == "C03" && !cfg!(miri) {
+                alloc::start_watchdog(if layer == "vg" || layer == "asan" { 600 } else { 90 });
+            }
             let t0 = Instant::now();
             let mut ctx = ev::Ctx::new(prop, seed, thorough);
             mon::run(&mut ctx, &layer);
